@@ -428,6 +428,37 @@ func isoAuxDigest(r *document.Document) string {
 	return fmt.Sprintf("fn=%v|en=%v|%s", v["fnCount"], v["enCount"], isoHash(j))
 }
 
+// ---------------------------------------------------------------- views by reference
+
+// isoIntern is a per-case dictionary of views: an event mentions a view by its id and carries
+// the definition of the ids it mentions for the first time (compression only, no comparison logic).
+type isoIntern struct {
+	ids  map[string]string
+	pend map[string]interface{}
+}
+
+func newIsoIntern() *isoIntern {
+	return &isoIntern{ids: map[string]string{}, pend: map[string]interface{}{}}
+}
+
+func (t *isoIntern) id(v interface{}) string {
+	j, _ := json.Marshal(v)
+	if id, ok := t.ids[string(j)]; ok {
+		return id
+	}
+	id := fmt.Sprintf("v%d", len(t.ids)+1)
+	t.ids[string(j)] = id
+	t.pend[id] = v
+	return id
+}
+
+// emit attaches the pending definitions to the event.
+func (t *isoIntern) emit(emit Emitter, ev Ev) {
+	ev["defs"] = t.pend
+	t.pend = map[string]interface{}{}
+	emit(ev)
+}
+
 // ---------------------------------------------------------------- hooks present?
 
 var (
@@ -460,23 +491,23 @@ func isoProbeHooks() bool {
 
 // ---------------------------------------------------------------- solo baseline
 
-func isoSolo(c Case, names []string, progs map[string][]Op, emit Emitter) {
+func isoSolo(c Case, names []string, progs map[string][]Op, tab *isoIntern, emit Emitter) {
 	for _, d := range names {
 		document.VerifResetGlobals()
 		st := isoNewDoc(d)
-		emit(Ev{"ev": "solo", "case": c.ID, "d": d, "pos": 0, "op": Op{"op": "New", "a": ""}, "ret": "ok", "view": isoView(st)})
+		tab.emit(emit, Ev{"ev": "solo", "case": c.ID, "d": d, "pos": 0, "op": Op{"op": "New", "a": ""}, "ret": "ok", "view": tab.id(isoView(st))})
 		prog := append(append([]Op{}, progs[d]...), isoFinalOp)
 		for k, op := range prog {
 			ret, _ := isoExec(st, op)
-			emit(Ev{"ev": "solo", "case": c.ID, "d": d, "pos": k + 1, "op": op, "ret": ret, "view": isoView(st)})
+			tab.emit(emit, Ev{"ev": "solo", "case": c.ID, "d": d, "pos": k + 1, "op": op, "ret": ret, "view": tab.id(isoView(st))})
 		}
 	}
 }
 
-func isoViews(names []string, docs map[string]*isoDoc) map[string]interface{} {
+func isoViews(names []string, docs map[string]*isoDoc, tab *isoIntern) map[string]interface{} {
 	vs := map[string]interface{}{}
 	for _, d := range names {
-		vs[d] = isoView(docs[d])
+		vs[d] = tab.id(isoView(docs[d]))
 	}
 	return vs
 }
@@ -487,7 +518,8 @@ func runIso(c Case, emit Emitter) {
 	x := isoExtraOf(c)
 	names, progs := isoPrograms(c.Steps)
 	emit(Ev{"ev": "reset", "case": c.ID, "mode": x.Mode, "hooks": isoProbeHooks()})
-	isoSolo(c, names, progs, emit)
+	tab := newIsoIntern()
+	isoSolo(c, names, progs, tab, emit)
 	document.VerifResetGlobals()
 	// all documents exist from the start; nothing is reset between them from here on
 	docs := map[string]*isoDoc{}
@@ -495,7 +527,7 @@ func runIso(c Case, emit Emitter) {
 		docs[d] = isoNewDoc(d)
 	}
 	if x.Mode == "go" {
-		isoRunGo(c, names, docs, emit)
+		isoRunGo(c, names, docs, tab, emit)
 		return
 	}
 	steps := append([]Op{}, c.Steps...)
@@ -508,8 +540,8 @@ func runIso(c Case, emit Emitter) {
 		}
 		d := s.Str("d")
 		ret, pmsg := isoExec(docs[d], s)
-		emit(Ev{"ev": "step", "case": c.ID, "d": d, "op": s, "fin": true, "ret": ret, "pmsg": pmsg,
-			"busy": []string{}, "views": isoViews(names, docs)})
+		tab.emit(emit, Ev{"ev": "step", "case": c.ID, "d": d, "op": s, "fin": true, "ret": ret, "pmsg": pmsg,
+			"busy": []string{}, "views": isoViews(names, docs, tab)})
 	}
 }
 
@@ -563,7 +595,7 @@ func isoGateHook(point string) {
 	<-w.grant
 }
 
-func isoRunGo(c Case, names []string, docs map[string]*isoDoc, emit Emitter) {
+func isoRunGo(c Case, names []string, docs map[string]*isoDoc, tab *isoIntern, emit Emitter) {
 	ws := map[string]*isoWorker{}
 	var ids []int64
 	for _, d := range names {
@@ -607,8 +639,8 @@ func isoRunGo(c Case, names []string, docs map[string]*isoDoc, emit Emitter) {
 		if !fin {
 			ret = "paused:" + ev.point
 		}
-		emit(Ev{"ev": "step", "case": c.ID, "d": d, "op": o, "fin": fin, "ret": ret, "pmsg": ev.pmsg,
-			"busy": busy(), "views": isoViews(names, docs)})
+		tab.emit(emit, Ev{"ev": "step", "case": c.ID, "d": d, "op": o, "fin": fin, "ret": ret, "pmsg": ev.pmsg,
+			"busy": busy(), "views": isoViews(names, docs, tab)})
 	}
 	wait := func(w *isoWorker) isoEvt {
 		ev := <-w.evt
